@@ -201,7 +201,9 @@ def x_eval_module_expr(self, st, node, mod):
         return KeyError
     if isinstance(node, ast.Call):
         fn = self.ix.resolve_expr(mod, node.func)
-        ext_ok = isinstance(fn, tuple) and fn and fn[0] == "ext" and (fn[1] in ("collections.namedtuple", "functools.partial") or fn[1].startswith("operator."))
+        ext_ok = isinstance(fn, tuple) and fn and fn[0] == "ext" and (
+            fn[1] in ("collections.namedtuple", "functools.partial", "six.text_type", "six.u", "collections.OrderedDict", "collections.defaultdict")
+            or fn[1].startswith("operator."))
         if not (isinstance(node.func, ast.Name) and node.func.id in ("tuple", "list", "dict", "set", "frozenset", "sorted")) and not isinstance(fn, FuncInfo) \
                 and not ext_ok:
             return KeyError
@@ -1185,6 +1187,10 @@ def get_attr(self, st, base, attr, node, default=KeyError):
                 raise U_("module attribute %s.%s" % (base.mod.name, attr))
             return [(st, "val", self.x_resolved(st, r, attr))]
         dn = base.mod + "." + attr
+        if base.mod == "string" and attr in ("ascii_letters", "ascii_lowercase", "ascii_uppercase", "digits", "hexdigits", "octdigits",
+                                             "punctuation", "whitespace", "printable"):
+            import string as _string
+            return [(st, "val", getattr(_string, attr))]
         if base.mod == "logging" and getattr(self, "int_sat", 2) > 2:
             import logging as _logging
             if attr in ("NOTSET", "DEBUG", "INFO", "WARN", "WARNING", "ERROR", "CRITICAL", "FATAL"):
